@@ -88,3 +88,9 @@ chk("C10", "other",
     "Real-arithmetic model; svd contract and the polar-decomposition theorem trusted; m = -1, -0.5 (matrix inverses) and 'first-order agreement for all m' not covered; the monolithic rotation round trip is a stretch obligation.",
     "symbolic execution of the Python / numba py_func source (pysym) + z3 NRA validity queries with cut-point staging and contract stubs; replay against an eigen-decomposition Seth-Hill reference on the real code", "DESIGN.md 3/C10", "pysym")
 del NA["C10"]
+
+chk("C05", "other",
+    "Unbounded z3 NRA lemmas over the real code: quickorient (clang IR, llsym) on arbitrary non-collinear g1, g2 gives an orthonormal triad M with M.g1 = (|g1|,0,0), M.g2 = (g1.g2/|g1|, -|g1 x g2|/|g1|, 0), det M = -1 and UBI_out = BT.M; BTmat (real Python, pysym) on arbitrary non-collinear vectors gives an orthonormal triad of the same handedness with the same component formulas; for each hkl pair and a symbolic upper-triangular B, BTmat(h1,h2,B,BI) = BI.[triad of (B.h1, B.h2)] and BI.(B.h) = h; a congruence (glue) query shows that equal Gram matrices give equal components. Hence UBI.g1 = h1, UBI.g2 = h2, UBI.UBI^T = BI.BI^T, det UBI > 0 for every cell and every orientation.",
+    "First sentence of C05 only: the candidate-list sentence (filter_pairs, ubi_equiv, getanglehkls: clustering of floating-point cosines on concrete lattices) is NOT covered; hkl pairs from a fixed list (5 quick, 12 thorough); real-arithmetic model; the composition of the lemmas is a congruence argument (its scalar core is a solver query, the rest prose).",
+    "symbolic execution of LLVM IR (llsym) and of the Python source (pysym) with a shared sqrt context + z3 NRA lemma queries (cut-point staging); replay on the rebuilt kernel with random cells and rotations", "DESIGN.md 3/C05", "llsym+pysym")
+del NA["C05"]
